@@ -155,7 +155,7 @@ CHECKS.update({
         design_ref="DESIGN.md 3.5, 5/C17",
         note="Symlinks, case-insensitive file systems and ~ expansion are outside the quantifier. Opens made by "
              "TensorFlow / Rust are judged through the paths Python hands to them.",
-        technique="TLA+ exhaustive enumeration of path strings + TLC-judged replay on validators and planted metadata",
+        technique="TLA+ exhaustive enumeration of path strings + TLC-judged replay on validators (also under python -O) and planted metadata",
     ),
 })
 
